@@ -1,9 +1,12 @@
 // Package vatomic replaces go.uber.org/atomic in the instrumented client: the operations are real atomics (so the
-// race detector sees their synchronisation), preceded by a scheduling point for loads.
+// race detector sees their synchronisation), preceded by a scheduling point for loads. Stores and read-modify-write
+// operations are reported to the scheduler without being scheduling points (it needs their order for the
+// happens-before state keys, see rt/hb.go).
 package vatomic
 
 import (
 	"sync/atomic"
+	"unsafe"
 
 	"verif/rt"
 )
@@ -14,11 +17,16 @@ type Bool struct{ v atomic.Bool }
 func NewBool(b bool) *Bool { x := &Bool{}; x.v.Store(b); return x }
 func (b *Bool) Load() bool {
 	if rt.Active() {
-		rt.AtomicPoint()
+		rt.AtomicLoad(unsafe.Pointer(b))
 	}
 	return b.v.Load()
 }
-func (b *Bool) Store(v bool) { b.v.Store(v) }
+func (b *Bool) Store(v bool) {
+	if rt.Active() {
+		rt.AtomicStore(unsafe.Pointer(b))
+	}
+	b.v.Store(v)
+}
 
 // Uint64 mirrors go.uber.org/atomic.Uint64.
 type Uint64 struct{ v atomic.Uint64 }
@@ -26,12 +34,17 @@ type Uint64 struct{ v atomic.Uint64 }
 func NewUint64(x uint64) *Uint64 { u := &Uint64{}; u.v.Store(x); return u }
 func (u *Uint64) Load() uint64 {
 	if rt.Active() {
-		rt.AtomicPoint()
+		rt.AtomicLoad(unsafe.Pointer(u))
 	}
 	return u.v.Load()
 }
-func (u *Uint64) Store(x uint64)      { u.v.Store(x) }
-func (u *Uint64) Add(d uint64) uint64 { return u.v.Add(d) }
-func (u *Uint64) Inc() uint64         { return u.v.Add(1) }
-func (u *Uint64) Dec() uint64         { return u.v.Add(^uint64(0)) }
-func (u *Uint64) Sub(d uint64) uint64 { return u.v.Add(^(d - 1)) }
+func (u *Uint64) rmw() {
+	if rt.Active() {
+		rt.AtomicStore(unsafe.Pointer(u))
+	}
+}
+func (u *Uint64) Store(x uint64)      { u.rmw(); u.v.Store(x) }
+func (u *Uint64) Add(d uint64) uint64 { u.rmw(); return u.v.Add(d) }
+func (u *Uint64) Inc() uint64         { u.rmw(); return u.v.Add(1) }
+func (u *Uint64) Dec() uint64         { u.rmw(); return u.v.Add(^uint64(0)) }
+func (u *Uint64) Sub(d uint64) uint64 { u.rmw(); return u.v.Add(^(d - 1)) }
